@@ -28,8 +28,9 @@ LEVEL_NOTE = ('Trusted: Lean kernel; gen_c03 translator (CPython sre parser for 
 TECHNIQUE = 'Lean 4 executable model + theorems (invariants, denotational spec) + exhaustive/generated differential correspondence'
 RULE = ('strings: (a) every string up to a length bound over the SMILES alphabet, (b) every bracket-atom body up to a bound '
         'over the bracket alphabet, (c) grammar-generated molecules/reactions/CXSMILES, (d) corpus + repository test strings, '
-        '(e) single-edit corruptions of (c),(d). A case is one (stream, string); it is non-trivial when the string has at '
-        'least 2 characters; distinct by (stream, string).')
+        '(e) single-edit corruptions of (c),(d), (f) grids: ring-bond symbol pairs, reaction fragment groupings, stereo '
+        'templates. An evaluation is one program (smiles_tokenize, smiles, smiles-vs-reference-reader) run on one string; '
+        'a string is non-trivial when it has at least 2 characters; distinct = distinct non-trivial strings.')
 TRUSTED = ['gen_c03 translator (atom_re via CPython sre parser into a restricted normal form; _tokenize character classes via AST)',
            'hand-written model of the two CXSMILES regexes (translator refuses to run if the patterns change)']
 ASSUMPTIONS = ['ASCII input (str.isnumeric / str.split whitespace modelled for ASCII)',
@@ -395,6 +396,27 @@ def streams(ctx):
                       'C{o}1CC=C{c}1/F', 'C(F){o}1CC{c}1', 'C{o}1{c}1', 'C{o}1C{c}1', 'F/C=C{o}1CCOC{c}1', 'F\\C(Cl)=C{o}1CCOC{c}1',
                       'C{o}1CCOC{c}1=C/F', 'F/C=C/C=C{o}1COCC{c}1'):
                 yield 'ring-bond-grid', t.format(o=o, c=c)
+    # reactions with distinct one-atom molecules and every kind of fragment grouping (within / across roles, out of range)
+    mols9 = ['C', 'N', 'O', 'S', 'P', 'F', 'Cl', 'Br', 'I']
+    for nr in range(4):
+        for ng in range(4):
+            for np_ in range(4):
+                n = nr + ng + np_
+                if n == 0 or n > 9:
+                    continue
+                smi = '.'.join(mols9[:nr]) + '>' + '.'.join(mols9[nr:nr + ng]) + '>' + '.'.join(mols9[nr + ng:n])
+                yield 'contraction-grid', smi
+                for _ in range(4 if quick else 12):
+                    groups, pool = [], list(range(n + 1))
+                    rng.shuffle(pool)
+                    for _ in range(rng.randint(1, 2)):
+                        k = rng.randint(2, 3)
+                        if len(pool) >= k and rng.random() < 0.8:
+                            groups.append([pool.pop() for _ in range(k)])
+                        else:
+                            groups.append([rng.randint(0, n) for _ in range(k)])
+                    cx = ' |f:' + ','.join('.'.join(map(str, g)) for g in groups) + '|'
+                    yield 'contraction-grid', smi + cx
     # exhaustive short strings
     n_full = 3 if quick else 4
     for s in all_strings(ALPHA_FULL, n_full):
@@ -403,14 +425,14 @@ def streams(ctx):
     for s in all_strings(ALPHA_CORE, n_core):
         if len(s) > n_full:
             yield f'exhaustive-core<={n_core}', s
-    n_st = 5 if quick else 7
+    n_st = 5 if quick else 6
     for s in all_strings(ALPHA_STEREO, n_st):
         if s[0] in 'CN[' and ('/' in s or '\\' in s or '@' in s):
             yield f'exhaustive-stereo<={n_st}', s
     for _ in range(4000 if quick else 60000):
         k = rng.randint(5, 14)
         yield 'random-stereo', rng.choice('CN') + ''.join(rng.choice(ALPHA_STEREO_R) for _ in range(k))
-    n_br = 3 if quick else 5
+    n_br = 3 if quick else 4
     for s in all_strings(ALPHA_BRACKET, n_br):
         yield f'exhaustive-bracket<={n_br}', '[' + s + ']'
     # structured bracket atoms: isotope x element x stereo x H x charge x map
@@ -482,66 +504,76 @@ def features(s):
 
 
 def correspond(ctx):
-    ctx.cov['programs'] = 10  # (+ smiles() judged by reference reader / RDKit) smiles, smiles_tokenize, _tokenize, _atom_parse, parser, postprocess_parsed_molecule, postprocess_parsed_reaction, create_molecule, create_reaction
+    ctx.cov['programs'] = 10  # smiles, smiles_tokenize, _tokenize, _atom_parse, parser, postprocess_parsed_molecule, postprocess_parsed_reaction, create_molecule, create_reaction (+ smiles() judged by reference reader / RDKit)
     if not ctx.build_ok:
-        ctx.notes.append('driver not built: correspondence skipped')
-        return
-    seen = set()
-    cases = []
-    for tag, s in streams(ctx):
-        if not s or (tag, s) in seen or any(ord(c) > 126 for c in s):
-            continue
-        seen.add((tag, s))
-        cases.append((tag, s))
-    reqs = []
-    for tag, s in cases:
-        reqs.append('T ' + enc(s))
-        reqs.append('S ' + enc(s))
-    resp = core.run_driver('C03', reqs)
-    if len(resp) != len(reqs):
-        ctx.broke('correspondence', 'driver-protocol', f'{len(reqs)} requests, {len(resp)} responses')
-        return
-    bad = {}
-    for i, (tag, s) in enumerate(cases):
-        mt, _ = norm_model(resp[2 * i])
-        ms, msg = norm_model(resp[2 * i + 1])
-        rt = real_tok(s)
-        rs = real_smiles(s)
-        nontrivial = len(s) >= 2
-        ctx.count(('T', s), nontrivial)
-        ctx.count(('S', s), nontrivial)
-        ctx.dist('stream:' + tag)
-        head = ms.split(' ', 2)
-        ctx.dist('outcome:' + (head[0] if head[0] != 'ok' else 'ok-' + head[1]))
-        if msg:
-            ctx.dist('site:' + msg)
-        for f in features(s):
-            ctx.dist('feature:' + f)
-        if tag in ('grammar', 'corpus') and len(ctx.cov['samples']) < 6 and len(s) > 6:
-            ctx.sample({'stream': tag, 'input': s, 'model': ms[:300], 'real': rs[:300]})
-        if mt != rt:
-            bad.setdefault('smiles_tokenize', []).append((s, mt, rt))
-        if ms != rs:
-            bad.setdefault('smiles', []).append((s, ms, rs))
-    # standing relational stream: the real reader judged by the independent reference reader + RDKit
-    skip = ('exhaustive-core',) if ctx.quick else ()
-    n_or = 0
+        ctx.notes.append('driver not built: correspondence skipped; reference-reader / RDKit stream still runs')
     known_sigs = {f['signature'] for f in core.load_findings('C03') if f['status'] == 'known'}
-    shrunk = set()
-    for tag, s in cases:
-        if tag.startswith(skip) if skip else False:
+    state = {'bad': {}, 'shrunk': set(), 'n_or': 0}
+    seen = set()
+    batch = []
+
+    def flush():
+        if not batch:
+            return
+        resp = None
+        if ctx.build_ok:
+            reqs = []
+            for tag, s in batch:
+                reqs.append('T ' + enc(s))
+                reqs.append('S ' + enc(s))
+            resp = core.run_driver('C03', reqs)
+            if len(resp) != len(reqs):
+                ctx.broke('correspondence', 'driver-protocol', f'{len(reqs)} requests, {len(resp)} responses')
+                resp = None
+        for i, (tag, s) in enumerate(batch):
+            nontrivial = len(s) >= 2
+            ctx.dist('stream:' + tag)
+            if resp is not None:
+                mt, _ = norm_model(resp[2 * i])
+                ms, msg = norm_model(resp[2 * i + 1])
+                rt = real_tok(s)
+                rs = real_smiles(s)
+                ctx.count(('S', s), nontrivial, n=2)     # two programs compared on this string: smiles_tokenize, smiles
+                head = ms.split(' ', 2)
+                ctx.dist('outcome:' + (head[0] if head[0] != 'ok' else 'ok-' + head[1]))
+                if msg:
+                    ctx.dist('site:' + msg)
+                for f in features(s):
+                    ctx.dist('feature:' + f)
+                if tag in ('grammar', 'corpus') and len(ctx.cov['samples']) < 6 and len(s) > 6:
+                    ctx.sample({'stream': tag, 'input': s, 'model': ms[:300], 'real': rs[:300]})
+                if mt != rt:
+                    state['bad'].setdefault('smiles_tokenize', []).append((s, mt, rt))
+                if ms != rs:
+                    state['bad'].setdefault('smiles', []).append((s, ms, rs))
+            # standing relational stream: the real reader judged by the independent reference reader + RDKit
+            if tag.startswith('exhaustive-') and ((ctx.quick and tag.startswith('exhaustive-core')) or (not ctx.quick and len(s) > 4)):
+                continue
+            state['n_or'] += 1
+            r = oracle(s)
+            ctx.count(('S', s), nontrivial)
+            if r is not None:
+                ctx.dist('oracle:' + r[0])
+                if r[0] not in known_sigs and r[0] not in state['shrunk']:  # first unlisted failure of this kind: shrink it
+                    state['shrunk'].add(r[0])
+                    s, r = shrink(s, r)
+                ctx.fail(r[0], r[1], {'smiles': s})
+        batch.clear()
+
+    for tag, s in streams(ctx):
+        if not s or any(ord(c) > 126 for c in s):
             continue
-        n_or += 1
-        r = oracle(s)
-        ctx.count(('O', s), len(s) >= 2)
-        if r is not None:
-            ctx.dist('oracle:' + r[0])
-            if r[0] not in known_sigs and r[0] not in shrunk:  # first unlisted failure of this kind: shrink it
-                shrunk.add(r[0])
-                s, r = shrink(s, r)
-            ctx.fail(r[0], r[1], {'smiles': s})
-    ctx.dist('oracle:judged', n_or)
-    for name, lst in bad.items():
+        if not tag.startswith('exhaustive-'):   # the exhaustive enumerations do not repeat themselves
+            h = hash(s)
+            if h in seen:
+                continue
+            seen.add(h)
+        batch.append((tag, s))
+        if len(batch) >= 100000:
+            flush()
+    flush()
+    ctx.dist('oracle:judged', state['n_or'])
+    for name, lst in state['bad'].items():
         ctx.cov['disagreements_checked'] += len(lst)
         lst.sort(key=lambda x: len(x[0]))
         s, m, r = lst[0]
